@@ -470,6 +470,13 @@ def synthetic(ctx: Ctx):
                                      blank(floatfactor=[0, BIG + 3, 0, 0, 0], phase=[1, 4]), blank(floatfactor=[0, BIG, 0, 0, 0], phase=[5, 4])])
     add("near-cancel-by-parameter", ["a", "b"], [blank(floatfactor=[0, BIG + 1, 0, 0, 0], pi_pair=[[["a"], ["1"]]]),
                                                  blank(floatfactor=[0, BIG, 0, 0, 0], pi_pair=[[["1"], ["b"]]])])
+    # more than 64 graphs in one list (a component with a dozen T gates decomposes into hundreds of terms)
+    for ng in (65, 100, 129):
+        add(f"many-graphs-{ng}", ["a", "b"], [blank(phasenodes=[[(3 * k) % 8, 4, ["a"] if k % 2 else ["b"]]], phase=[k % 8, 4], power2=-(k % 3)) for k in range(ng)])
+    # rows of one batch at very different magnitudes: 36 and 40 legless spiders 1+e^{i pi a} give 2^36 / 2^40 for a=0 and exactly 0 for a=1
+    for nn in (36, 40):
+        add(f"A-product-{nn}-zero-row", ["a", "b"], [blank(phasenodes=[[0, 1, ["a"]]] * nn + [[1, 4, ["b"]]])], rows="all")
+        cases[-1]["batch"] = 4          # all four rows in ONE call of evaluate
     add("static-approx", ["a", "b"], [blank(approx=[0.3, -1.7], phasenodes=[[1, 4, ["a"]]]), blank(phase=[1, 3], halfpi1=[["b"]], has_halfpi_keys=[1]),
                                       blank(phase=[5, 8], approx=[-0.2, 0.4], power2=3), blank(phase=[1, 4], power2=-2)])
     add("approx-with-exact-graphs", ["a", "b"], [blank(phasenodes=[[3, 4, ["a", "b"]]]), blank(approx=[2.5, 0.0], pi_pair=[[["a"], ["b"]]])])
